@@ -99,7 +99,7 @@ def assume_physical(ctx, ref, free_T_cell=None):
                 ctx.assume(arr[idx + (iY0,)].t + arr[idx + (iY1,)].t >= core.rv(0.5))
 
 
-def run_chef(mods, ref, cfg, serial, ctx, canary=False, free_T_cell=None):
+def run_chef(mods, ref, cfg, serial, ctx, canary=False, free_T_cell=None, prior=None):
     label, recipe, kw, kept, newnames = cfg
     chefmod = mods['amr_kitchen.chef.chef']
     Taster = mods['amr_kitchen.taste.taste'].Taster
@@ -109,7 +109,18 @@ def run_chef(mods, ref, cfg, serial, ctx, canary=False, free_T_cell=None):
     assume_physical(ctx, ref, free_T_cell)
     what = 'Chef(recipe=%s, kept_fields=%r, serial=%r%s).cook()' % (os.path.basename(recipe), kept, serial,
                                                                       ''.join(', %s=%r' % (k, v) for k, v in kw.items() if k in ('species', 'reactions')))
+    if prior is not None:
+        what = 'Chef(recipe=%s, pressure=%r, ...).cook(); %s' % (os.path.basename(prior[1]), prior[2].get('pressure'), what.replace('Chef(', 'Chef(pressure=%r, ' % kw.get('pressure')))
     with patch.Patched(mods, fs, stubs={'amr_kitchen.chef.chef': {'ct': ctstub}}), common.quiet():
+        if prior is not None:
+            # a history in one process: another Chef cooks first (another recipe, another pressure)
+            try:
+                ch0 = chefmod.Chef(plotfile='plt', recipe=prior[1], outfile='out0', serial=True, kept_fields=prior[3], **prior[2])
+                if callable(getattr(ch0, 'recipe', None)) and hasattr(ch0.recipe, '__globals__'):
+                    ch0.recipe.__globals__['np'] = npfacade.facade
+                ch0.cook()
+            except Exception:
+                pass
         try:
             ch = chefmod.Chef(plotfile='plt', recipe=recipe, outfile='out', serial=serial, kept_fields=kept, **kw)
             if callable(getattr(ch, 'recipe', None)) and hasattr(ch.recipe, '__globals__'):
@@ -171,6 +182,21 @@ def run_case(case):
                 sig = 'C11/%s/%s' % (cfg[0], kind)
                 if sig not in viol:
                     viol[sig] = {'signature': sig, 'what': msg[:400], 'cfg': cfg, 'serial': serial, 'model': obl.failed[0][1] or ctx.model()}
+    # histories: two Chefs in one process with different recipes and pressures; the second one is judged
+    HIST = [(('ENT+kept', 'ENT', {'mech': 'm.yaml', 'pressure': 2.0}, 'temp', ['Enthalpy']), ('HRR@3', 'HRR', {'mech': 'm.yaml', 'pressure': 3.0}, 'density', ['HeatRelease'])),
+            (('HRR', 'HRR', {'mech': 'm.yaml', 'pressure': 1.0}, None, ['HeatRelease']), ('SDi@5+kept', 'SDi', {'mech': 'm.yaml', 'pressure': 5.0, 'species': ['H2', 'O2']}, 'a', ['DI(H2)', 'DI(O2)'])),
+            (('user-multi+kept', os.path.join(RECIPES, 'r_multi.py'), {}, 'density', ['twice_a_plus_rho', 'a_times_rho']), ('user-single', os.path.join(RECIPES, 'r_single.py'), {}, 'temp', ['a_plus_2rho']))]
+    for prior, cfg in HIST:
+        def hpath(ctx, cfg=cfg, prior=prior):
+            return run_chef(mods, ref, cfg, True, ctx, prior=prior)
+        results, exhaustive, stats = core.explore(hpath, max_paths=16)
+        res.add_explore(results, exhaustive, stats)
+        for ctx, obl in results:
+            res.add_obl(obl)
+            if obl.failed and not ctx.flags:
+                sig = 'C11/history/%s-after-%s' % (cfg[0], prior[0])
+                if sig not in viol:
+                    viol[sig] = {'signature': sig, 'what': obl.failed[0][0][:400], 'cfg': cfg, 'serial': True, 'model': obl.failed[0][1] or ctx.model(), 'prior': prior}
     # kept temperature must stay bit-identical even where the thermo state is "cleaned" (T = 0 in one cell)
     cfgk = ('HRR+kept', 'HRR', {'mech': 'm.yaml', 'pressure': 1.0}, 'temp', ['HeatRelease'])
 
@@ -263,10 +289,15 @@ def make_replay(ref, v):
     if 'mech' in kw2:
         kw2['mech'] = 'h2o2_min.yaml'
     case = {'property': 'C11', 'handler': 'c11', 'signature': v['signature'], 'what': v['what'], 'label': label, 'recipe': recipe, 'kw': kw2,
-            'kept': kept, 'newnames': newnames, 'serial': v['serial'], 'fields': ref.fields,
+            'kept': kept, 'newnames': newnames, 'serial': v['serial'], 'fields': ref.fields, 'prior': None,
             'ref': {'fields': ref.fields, 'lo': ref.lo, 'hi': ref.hi, 'dx': ref.dx, 'ncell': [list(n) for n in ref.ncell], 'time': ref.time,
                     'boxes': [[[list(a), list(b)] for a, b in lv] for lv in ref.boxes],
                     'data': [[replay_lib._arr_hex(a) for a in lv] for lv in data]}}
+    if v.get('prior'):
+        pk = dict(v['prior'][2])
+        if 'mech' in pk:
+            pk['mech'] = 'h2o2_min.yaml'
+        case['prior'] = {'recipe': v['prior'][1], 'kw': pk, 'kept': v['prior'][3]}
     with open(os.path.join(d, 'case.json'), 'w') as f:
         json.dump(case, f, indent=1)
     common.write_replay_stub(d)
